@@ -142,7 +142,8 @@ def cases(draw, tier):
     nanpos = sorted(nanpos)[:n - 1]
     container = draw(st.sampled_from(["ndarray", "ndarray", "list",
                                       "series", "fortran", "strided",
-                                      "column-obs", "int", "float32"]))
+                                      "column-obs", "int", "float32",
+                                      "narrow-int"]))
     mperm = [draw(st.permutations(list(range(m)))) for _ in range(n)]
     fperm = draw(st.permutations(list(range(n))))
     shift = draw(st.sampled_from([0.0, 1.0, -7.5, 1e3, 0.1, 2.0**30, 2.0**40,
@@ -177,6 +178,19 @@ def call(obs, ens, container="ndarray"):
             obs[~np.isnan(obs)])) and not np.isnan(obs).any() \
             and np.all(ens == np.round(ens)):
         o, e = obs.astype(np.int64), ens.astype(np.int32)
+    elif container == "narrow-int" and not np.isnan(obs).any() \
+            and np.all(obs == np.round(obs)) and np.all(ens == np.round(ens)):
+        # counts stored in one byte / 16 bits (signed when there are
+        # negative values)
+        lo = min(obs.min(), ens.min())
+        hi = max(obs.max(), ens.max())
+        dts = [np.uint8, np.uint16] if lo >= 0 else [np.int8, np.int16]
+        dts = [t for t in dts if np.iinfo(t).min <= lo
+               and hi <= np.iinfo(t).max]
+        if dts:
+            o, e = obs.astype(dts[0]), ens.astype(dts[-1])
+        else:
+            o, e = obs.copy(), ens.copy()
     elif container == "float32" and np.all(obs == obs.astype(np.float32)) \
             and np.all(ens == ens.astype(np.float32)) \
             and not np.isnan(obs).any():
